@@ -254,6 +254,8 @@ def check_grid_values(ctx, ds, out, kinds, masks):
 
 def body_grid(ctx, conv, shape, buffer, via, as_coords, check='values', frame=False):
     ds, cv, kinds = grid_dataset(ctx, conv, shape, as_coords)
+    from harness import geomref
+    geomref.check(ctx, ds, cv, kind=conv)
     polygons = cv.polygons
     fixed = None
     if frame:
@@ -328,6 +330,8 @@ def body_mesh(ctx, mesh, supply, start_index, fill, buffer, via, check='values',
               with_edges=True):
     ds, cv, info = mesh_dataset(ctx, mesh, supply, start_index, fill, transposed, fill_value, coords_as_coords, with_edges)
     nodes, faces, ne = info
+    from harness import geomref
+    geomref.check(ctx, ds, cv, kind='ugrid')
     chosen, clips = clipcommon.choose_hits(ctx, cv, cv.polygons)
     ctx.note('clip', dict(mesh=mesh, supply=list(supply), hits=chosen, buffer=buffer, via=via))
     kept = set(chosen)
@@ -365,6 +369,10 @@ def cases(tier, check='values'):
                 yield Case(f'{check}:grid:{conv}:{shape[0]}x{shape[1]}:{"coords" if as_coords else "vars"}:buf{buffer}:{via}', body_grid,
                            dict(conv=conv, shape=shape, buffer=buffer, via=via, as_coords=as_coords, check=check),
                            patches=_patches, max_paths=5000, split=(16 if shape[0] * shape[1] >= 6 else 0))
+    # two neighbour rings on a strip long enough to tell one ring from two
+    for conv, shape in (('shoc_standard', (1, 4)), ('cf2d', (1, 4))) if q else (('shoc_standard', (1, 4)), ('cf2d', (1, 4)), ('shoc_standard', (1, 5)), ('shoc_simple', (4, 1))):
+        yield Case(f'{check}:grid:{conv}:{shape[0]}x{shape[1]}:coords:buf2:clip', body_grid,
+                   dict(conv=conv, shape=shape, buffer=2, via='clip', as_coords=True, check=check), patches=_patches, max_paths=500)
     # a ring of selected cells around symbolic interior cells (holes one row tall, two cells wide, ...)
     for conv, shape in ((('shoc_standard', (3, 4)),) if q else (('shoc_standard', (3, 4)), ('shoc_standard', (4, 4)), ('cf2d', (3, 4)))):
         yield Case(f'{check}:grid:{conv}:{shape[0]}x{shape[1]}:coords:buf0:clip:frame', body_grid,
